@@ -73,7 +73,11 @@ fn(H1 + ".handle", params={"event": _ev.IO_EVENTS}, task="reader", model_opts={"
 
 STREAM_HANDLE = "(c[0] == 'HTTPStream.handle' or c[0] == 'WSStream.handle')"
 fn(H1 + "._handle_events", params={}, task="reader", model_opts={"h11_server_headers_ok": True},
-   raises={"H2CProtocolRequiredError": None, "H2ProtocolAssumedError": None},
+   raises={"H2CProtocolRequiredError": None,
+           # C07: the cleartext HTTP/2 preface is not a request: handing over to HTTP/2 must not leave
+           # the connection reported busy (nothing would report it idle again until a stream has come
+           # and gone, and the server has stopped its keep-alive timer on that report)
+           "H2ProtocolAssumedError": {"ensures": [("C07.preface.not-left-busy", "not trace_any('sent', 'x', isinstance(x, Updated) and x.idle == False)", "C07")]}},
    loops={0: {"locals": {"event": "opaque"},
      "iter_ensures": [
        # C04: malformed input (h11 RemoteProtocolError): the connection is closed, and any response
